@@ -57,28 +57,49 @@ def do_unmarshal(data):
     return {'r': 'ok', 'n': as_int(res[0]), 'ch': as_int(res[1]), 'f': a_frame(res[2])}, res[2]
 
 
+class DidNotReturn(Exception):
+    """a library call was stopped by the step / wall-clock budget"""
+
+
+def unmarshal3(b):
+    """frame.unmarshal(b) for drivers that only USE the result: budgeted, the library's own exception re-raised"""
+    import observers
+    res, exc, _s, _p = observers.with_budget(frame.unmarshal, bytes(b))
+    if isinstance(exc, observers.BudgetExceeded):
+        raise DidNotReturn('frame.unmarshal did not return within its budget')
+    if exc is not None:
+        raise exc
+    return res
+
+
 def encode_value(v, pos='top'):
     fn = {'top': encode.encode_table_value, 'table': encode.field_table, 'array': encode.field_array}[pos]
+    import observers
     pre = abstract(v)
     try:
-        b = fn(v)
+        with observers.wall():
+            b = fn(v)
         out = _bytes_result(b)
         if out['r'] != 'ok':
             raise TypeError('encoder returned ' + type(b).__name__)
+    except observers.BudgetExceeded:
+        return {'pos': pos, 'in': pre, 'out': dict(observers.HANG), 'dec': {'r': 'skip'}, 'out2': {'r': 'skip'}, 'post': abstract(v)}
     except Exception as e:  # noqa
         return {'pos': pos, 'in': pre, 'out': a_exc(e), 'dec': {'r': 'skip'}, 'out2': {'r': 'skip'}, 'post': abstract(v)}
     out2 = _call(fn, v)
     post = abstract(v)
-    try:
-        if pos == 'top':
-            n, w = decode.embedded_value(b)
-        elif pos == 'table':
-            n, w = decode.field_table(b)
-        else:
-            n, w = decode.field_array(b)
-        dec = {'r': 'ok', 'n': n, 'v': abstract(w)}
-    except Exception as e:  # noqa
-        dec = a_exc(e)
+    dfn = {'top': decode.embedded_value, 'table': decode.field_table, 'array': decode.field_array}[pos]
+    res, exc, _steps, _peak = observers.with_budget(dfn, b)      # (a decoder that does not return must not hang the driver)
+    if isinstance(exc, observers.BudgetExceeded):
+        dec = dict(observers.HANG)
+    elif exc is not None:
+        dec = a_exc(exc)
+    else:
+        try:
+            n, w = res
+            dec = {'r': 'ok', 'n': n, 'v': abstract(w)}
+        except Exception as e:  # noqa
+            dec = a_exc(e)
     return {'pos': pos, 'in': pre, 'out': out, 'dec': dec, 'out2': out2, 'post': post}
 
 
@@ -113,8 +134,12 @@ def _bytes_result(r):
 
 
 def _call(fn, *a):
+    import observers
     try:
-        return _bytes_result(fn(*a))
+        with observers.wall():
+            return _bytes_result(fn(*a))
+    except observers.BudgetExceeded:
+        return dict(observers.HANG)
     except Exception as e:  # noqa
         return a_exc(e)
 
@@ -144,9 +169,13 @@ def encode_arg(ty, v):
     out = _call(encode.by_type, v, ty)
     dec = {'r': 'skip'}
     if out['r'] == 'ok':
+        import observers
         try:
-            n, w = decode.by_type(bytes(out['b']), {'table': 'table'}.get(ty, ty))
+            with observers.wall():
+                n, w = decode.by_type(bytes(out['b']), {'table': 'table'}.get(ty, ty))
             dec = {'r': 'ok', 'n': as_int(n), 'v': abstract(w)}
+        except observers.BudgetExceeded:
+            dec = dict(observers.HANG)
         except Exception as e:  # noqa
             dec = a_exc(e)
     return {'ty': ty, 'in': abstract(v), 'out': out, 'dec': dec}
